@@ -257,7 +257,7 @@ def constraint_family():
     return out
 
 
-GUARDS = ["nestable_b", "nestable_d_b", "nestable_c_b", "nestable_f_b"]      # in the order extract/drv_front.ml (nestsem2) prints them
+GUARDS = ["nestable_b", "nestable_d_b", "nestable_c_b", "nestable_f_b", "nestable_s_b"]      # in the order extract/drv_front.ml (nestsem2) prints them
 
 
 def renumber_sem(sem, pos):
